@@ -637,11 +637,13 @@ where
                 set_current_route_locale(locale);
                 StaticSegment(locale.as_str())
                     .test(path)
-                    // `StaticSegment` also matches the start of a longer segment ("/en-US" or "/english" for "en"),
-                    // the locale prefix must be a whole segment.
+                    // `StaticSegment` also matches the start of a longer segment ("/en-US" or "/english" for "en")
+                    // and a segment cut short ("/f/" for "fr"), the locale prefix must be the whole segment.
                     .filter(|partial_path_match| {
                         let remaining = partial_path_match.remaining();
-                        remaining.is_empty() || remaining.starts_with('/')
+                        let matched = partial_path_match.matched();
+                        (remaining.is_empty() || remaining.starts_with('/'))
+                            && matched.trim_start_matches('/') == locale.as_str()
                     })
                     .and_then(|partial_path_match| {
                         let remaining = partial_path_match.remaining();
